@@ -54,3 +54,20 @@ def run_items(ctx, timeout=900):
                 return False
     return core.compile_and_record(ctx, os.path.join(core.COQ, "Tie", "C03items.v"), "Tie/C03items.v", extra_q=q,
                                    subdir="Tie", timeout=timeout)
+
+
+def run_thresholds(ctx, timeout=900):
+    """Tie/C05.v: verify_threshold_constraints / reduce_chain_links regenerated from /repo (Gen/Fun5.v)"""
+    gen = os.path.join(ctx.work, "Gen")
+    tie = os.path.join(ctx.work, "Tie")
+    p = subprocess.run([sys.executable, os.path.join(core.ROOT, "tools", "pytrans2.py"), core.REPO, gen, "--thresholds"],
+                       capture_output=True, text=True)
+    if p.returncode != 0:
+        ctx.oblige("translator:Tie/C05.v", False, (p.stdout + p.stderr)[-800:])
+        return False
+    q = ["-Q", gen, "InToto.Gen", "-Q", tie, "InToto.Tie"]
+    rc, out = core.coqc(os.path.join(gen, "Fun5.v"), extra_q=q, timeout=timeout)
+    if rc != 0:
+        ctx.oblige("gen-compiles:Fun5.v", False, out[-800:])
+        return False
+    return core.compile_and_record(ctx, os.path.join(core.COQ, "Tie", "C05.v"), "Tie/C05.v", extra_q=q, subdir="Tie", timeout=timeout)
